@@ -490,6 +490,67 @@ def node_level(ctx, G, ir0, ir1, name, raw):
     return " ".join(sorted(items))
 
 
+def cross_kind(ctx, G, ir, raw):
+    """deep_eq between objects of DIFFERENT kinds is False, both ways, and
+    never raises: one node of every kind against every other kind (the F5
+    repair is the instance DataBlock / CodeBlock with equal fields), against
+    the IR's CFG, and against objects that have no deep_eq of their own (an
+    AuxData table, None, numbers, strings)"""
+    reps = {}
+    for n in [ir] + list(ir.modules) + list(ir.sections) + \
+            list(ir.byte_intervals) + list(ir.byte_blocks) + \
+            list(ir.proxy_blocks) + list(ir.symbols):
+        reps.setdefault(type(n).__name__, n)
+    for x in ir.byte_intervals:
+        for e in x.symbolic_expressions.values():
+            reps.setdefault(type(e).__name__, e)
+    reps["CFG"] = ir.cfg
+    # a data block and a code block showing the same uuid / offset / size
+    cbs = [b for b in ir.byte_blocks if isinstance(b, G.CodeBlock)]
+    if cbs:
+        c = cbs[0]
+        reps["DataBlock(twin)"] = G.DataBlock(size=c.size, offset=c.offset,
+                                              uuid=c.uuid)
+    others = [None, 0, "x", (), object(), G.AuxData(1, "uint8_t")]
+    names = sorted(reps)
+    for i, a in enumerate(names):
+        for b in names[i + 1:] :
+            if a.split("(")[0] == b.split("(")[0]:
+                continue
+            for p, q in ((reps[a], reps[b]), (reps[b], reps[a])):
+                try:
+                    with core.time_limit(20):
+                        got = p.deep_eq(q)
+                except (Exception, core.ImplTimeout) as e:   # noqa
+                    got = "raised " + type(e).__name__
+                ctx.evaluations += 1
+                if got is not False:
+                    ctx.report({"kind": "deep-eq-cross-kind", "a": a, "b": b},
+                               {"a": a, "b": b, "got": repr(got),
+                                "file_hex": raw.hex()[:6000]},
+                               "deep_eq between a %s and a %s gives %r, "
+                               "exact structural equality says False"
+                               % (type(p).__name__, type(q).__name__, got))
+                    return False
+        for o in others:
+            try:
+                with core.time_limit(20):
+                    got = reps[a].deep_eq(o)
+            except (Exception, core.ImplTimeout) as e:   # noqa
+                got = "raised " + type(e).__name__
+            ctx.evaluations += 1
+            if got is not False:
+                ctx.report({"kind": "deep-eq-cross-kind", "a": a,
+                            "b": type(o).__name__},
+                           {"a": a, "b": repr(o), "got": repr(got)},
+                           "deep_eq between a %s and %r gives %r, exact "
+                           "structural equality says False"
+                           % (a, o, got))
+                return False
+    ctx.count("cross-kind-pairs", len(names))
+    return True
+
+
 def stratified(rng, perts, n):
     """a sample with every perturbation *name* represented before any name
     is taken twice (blocks and expressions are few next to symbols)"""
@@ -534,6 +595,8 @@ def run(ctx):
                 pass            # symbols cannot happen: modules keep order)
         V0 = irdump.dump_irv(gtirb, ir0, lambda c, k: b"")
         C0 = canon_dump(gtirb, ir0)
+        if not cross_kind(ctx, gtirb, ir0, raw):
+            break
         perts = list(perturbations(gtirb, rng, ir0))
         if not ctx.thorough() and len(perts) > 60:
             perts = stratified(rng, perts, 60)
